@@ -279,3 +279,18 @@ backpatch_emit!(c01_backpatch_emit_st, 9u32, |r, l| AirStmt::Store { src_reg: r,
 backpatch_emit!(c01_backpatch_emit_sti, 9u32, |r, l| AirStmt::StoreInd { src_reg: r, dest_label: l }, 0xB000 + rn(r) * 512);
 backpatch_emit!(c01_backpatch_emit_jsr, 11u32, |r, l| AirStmt::JumbSub { dest_label: l }, 0x4800u16 + rn(r) * 0);
 backpatch_emit!(c01_backpatch_emit_call, 10u32, |r, l| AirStmt::Call { dest_label: l }, 0xDC00u16 + rn(r) * 0);
+
+/// negative control: LDR/STR emission against an oracle that forgets to mask the offset (the defect that was fixed):
+/// must come back FAILED
+#[kani::proof]
+#[kani::unwind(7)]
+#[kani::stub(alloc::fmt::format, stubs::fmt_format)]
+fn c01_control_wrong_oracle_offs6() {
+    let a = any_register();
+    let b = any_register();
+    let off: u8 = kani::any();
+    kani::assume(u8_in_signed_range(off, 6));
+    let expect = 0x6000u16 | rn(a) * 512 | rn(b) * 64 | off as u16; // unmasked: wrong for negative offsets
+    let got = line_of(kani::any(), AirStmt::LoadOffs { dest: a, src_reg: b, offset: off }).emit();
+    assert!(matches!(got, Ok(w) if w == expect));
+}
